@@ -236,6 +236,9 @@ async def ip_pairings_cell(ctx, cell, idx) -> None:
     op, err, st, extra = cell
     rng = ctx.grng("C04.ip", idx)
     w = simnet.World(rng)
+    # header names in lower / upper case (they are case-insensitive): throughout, or only in the reply under test
+    w.accessory.header_case = [None, "lower", "upper", None, None][(idx // 2) % 5]
+    reply_case = [None, "lower", "upper", "lower", "upper"][(idx // 2) % 5]
     replay = {"ip_cell": [op, err, st, extra]}
     ctx.case("ip", op, repr(err), st, extra, sample={"transport": "ip", "op": op, "error": err, "state": st, "extra_fields": extra}, kind="ip-" + op)
     try:
@@ -251,7 +254,9 @@ async def ip_pairings_cell(ctx, cell, idx) -> None:
 
         def responder(c, req):
             if req["target"] == "/pairings":
+                old_case, c.accessory.header_case = c.accessory.header_case, reply_case
                 c.send(c.http(status, reftlv.encode(items), "application/pairing+tlv8"))
+                c.accessory.header_case = old_case
                 return True
             return False
         if status != 200:
@@ -325,7 +330,15 @@ def run(ctx) -> None:
                         continue
                     rng = ctx.grng("C04.ip-verify", step, code, http)
                     w = simnet.World(rng)
-                    w.accessory.script_for = lambda h, a, m=f"{step}:{code}:{http}": simnet.ConnScript(verify=m)
+                    w.accessory.header_case = [None, "lower", "upper", None, None][j % 5]
+                    ecase = [None, "lower", "upper", "lower", "upper"][j % 5]
+
+                    def script_for(h, a, m=f"{step}:{code}:{http}", ecase=ecase):
+                        sc = simnet.ConnScript(verify=m)
+                        sc.error_header_case = ecase
+                        return sc
+
+                    w.accessory.script_for = script_for
                     ctx.case("ip-verify", step, code, http, sample={"transport": "ip", "step": "verify-" + step[:2].upper(), "error": code, "http_status": http}, kind="ip-verify")
                     try:
                         t = asyncio.ensure_future(w.connection.ensure_connection())
